@@ -321,6 +321,7 @@ func TestC05Streams(t *testing.T) {
 	rec.Require("frame-straddles-read-boundary", "seg-markerjunk", "seg-truncated", "clean-stream", "keyed", "dialect", "fault-injected", "seg-badcrc", "seg-badsig")
 	dpool := pool(t)
 	evid.Check(t, rec, evid.N(40000, 150000), func(t *rapid.T) {
+		drawBufSize(t)
 		sc := drawStream(t, dpool)
 		if err := checkStream(t, sc, rec); err != nil {
 			var ks []string
